@@ -3,6 +3,7 @@ package main
 import (
 	"context"
 	"errors"
+	goflag "flag"
 	"fmt"
 	"math/rand/v2"
 	"os"
@@ -81,8 +82,9 @@ type EzSpec struct {
 	Flags     EzPart   `json:"flags"`
 	File      EzPart   `json:"file"`
 	Decoy     EzPart   `json:"decoy"`
-	Kebab     bool     `json:"kebab,omitempty"` // Params.FileFieldNameEncoder: the file's keys are kebab-case
-	Race      bool     `json:"race"`            // the writer starts while the entry point is still running
+	Kebab     bool     `json:"kebab,omitempty"`    // Params.FileFieldNameEncoder: the file's keys are kebab-case
+	Race      bool     `json:"race"`               // the writer starts while the entry point is still running
+	CmdLine   string   `json:"cmd_line,omitempty"` // "": a flag source of the harness's own; "default": Params.FlagSource left nil (the process's command line); "prereg": likewise, and the application has registered one of the flags itself beforehand
 	Writes    []EzPart `json:"writes,omitempty"`
 	WriteHow  []string `json:"write_how,omitempty"` // rename | rewrite | delete-create
 }
@@ -129,6 +131,12 @@ func genEz(seed uint64, faulty bool) *Scenario {
 	e.File, e.Decoy = layer(1, 50), layer(1, 50)
 	e.File.ID, e.Decoy.ID = g.id(), g.id()
 	e.Kebab = g.pct(20)
+	switch g.r.IntN(6) {
+	case 0:
+		e.CmdLine = "default"
+	case 1:
+		e.CmdLine = "prereg"
+	}
 	fileExtras := func(p *EzPart) {
 		if v, ok := p.Leaves["ez_b"]; ok && g.pct(40) {
 			delete(p.Leaves, "ez_b")
@@ -455,11 +463,26 @@ func runEz(sc *Scenario, res *Result, keepLog bool) {
 	r.clients++
 	s.Spawn("ez", func() {
 		defer func() { r.done++ }()
-		fs, ferr := flag.NewSetWithArgs(flag.DefaultFlagNameConfig(), r.defaults(), r.flagArgs())
-		if ferr != nil {
-			panic(ferr)
+		if e.CmdLine == "" {
+			fs, ferr := flag.NewSetWithArgs(flag.DefaultFlagNameConfig(), r.defaults(), r.flagArgs())
+			if ferr != nil {
+				panic(ferr)
+			}
+			params.FlagSource = fs
+		} else {
+			// the default flag source: the process's command line. (A private,
+			// unparsed CommandLine and os.Args for this run; restored afterwards.)
+			oldCL, oldArgs := goflag.CommandLine, os.Args
+			defer func() { goflag.CommandLine, os.Args = oldCL, oldArgs }()
+			goflag.CommandLine = goflag.NewFlagSet("sim", goflag.ContinueOnError)
+			os.Args = append([]string{"sim"}, r.flagArgs()...)
+			if e.CmdLine == "prereg" {
+				// "if the flag already exists, don't register so the user can override our behavior"
+				goflag.CommandLine.Int("ez_a", 0, "registered by the application itself")
+				r.probes["flag-registered-by-the-application"]++
+			}
+			r.probes["default-command-line-flag-source"]++
 		}
-		params.FlagSource = fs
 		r.started = s.Step()
 		switch {
 		case e.Entry == "direct" && e.Format == "json":
